@@ -8,7 +8,7 @@
    map-iteration oracle and clock value) of the model of the REPAIRED code
    (fixes 7baf630 c9f204c d6f86b5 in /repo; see FIXLOG.md). *)
 From PV Require Import Base.Prelude Base.Text Model.DHCP Model.DHCPShow Spec.DHCP Spec.DHCPCheck
-  Proofs.DHCP Proofs.DHCPInv Proofs.DHCPReply Proofs.DHCPTie Proofs.DHCPRestart Proofs.DHCPGrant Proofs.DHCPRefuted.
+  Proofs.DHCP Proofs.DHCPInv Proofs.DHCPReply Proofs.DHCPTie Proofs.DHCPRestart Proofs.DHCPGrant Proofs.DHCPClauses Proofs.DHCPRefuted.
 Open Scope list_scope.
 Open Scope N_scope.
 
@@ -123,3 +123,73 @@ Print Assumptions C11_live_example.
 Example C11_sub_ok_example : sub_ok wcfg.
 Proof. exact (sub_ok_wanted _). Qed.
 Print Assumptions C11_sub_ok_example.
+
+(* ---------------------------------------------------------------- *)
+(* The clauses of the property one by one.  Each: for every configuration c, every history h (any ops, any
+   number of client ids and MACs, any pool size), every step t of its trace, every OFFER/ACK r to message m. *)
+
+(* never ACK/OFFER an address that is, at that step, acknowledged to a different client identifier *)
+Theorem C11_clause_not_acked_elsewhere : forall c h t m r,
+  In t (trace c (init c) h) -> op_msg (t_op t) = Some m -> t_reply t = Some r -> is_lease_reply r = true ->
+  forall l, In l (tbl (t_post t)) -> l_state l = SAllocated -> l_ip l = Some (r_yi r) -> l_cid l = getcid m.
+Proof. exact never_acked_elsewhere. Qed.
+Print Assumptions C11_clause_not_acked_elsewhere.
+
+Theorem C11_clause_never_own : forall c h t r,
+  In t (trace c (init c) h) -> t_reply t = Some r -> is_lease_reply r = true -> r_yi r <> c_hostip c.
+Proof. exact never_own. Qed.
+Print Assumptions C11_clause_never_own.
+
+Theorem C11_clause_never_router : forall c h t r,
+  In t (trace c (init c) h) -> t_reply t = Some r -> is_lease_reply r = true -> r_yi r <> c_routerip c.
+Proof. exact never_router. Qed.
+Print Assumptions C11_clause_never_router.
+
+Theorem C11_clause_never_network : forall c h t m r,
+  In t (trace c (init c) h) -> op_msg (t_op t) = Some m -> t_reply t = Some r -> is_lease_reply r = true ->
+  sub_ok c -> r_yi r <> want_lan c (client_net c (t_pre t) m).
+Proof. exact never_network. Qed.
+Print Assumptions C11_clause_never_network.
+
+Theorem C11_clause_never_broadcast : forall c h t m r,
+  In t (trace c (init c) h) -> op_msg (t_op t) = Some m -> t_reply t = Some r -> is_lease_reply r = true ->
+  sub_ok c -> r_yi r <> want_bcast c (client_net c (t_pre t) m).
+Proof. exact never_broadcast. Qed.
+Print Assumptions C11_clause_never_broadcast.
+
+Theorem C11_clause_never_outside : forall c h t m r,
+  In t (trace c (init c) h) -> op_msg (t_op t) = Some m -> t_reply t = Some r -> is_lease_reply r = true ->
+  sub_ok c -> want_contains c (client_net c (t_pre t) m) (r_yi r) = true.
+Proof. exact never_outside. Qed.
+Print Assumptions C11_clause_never_outside.
+
+Theorem C11_clause_never_tracked_for_other_mac : forall c h t m r,
+  In t (trace c (init c) h) -> op_msg (t_op t) = Some m -> t_reply t = Some r -> is_lease_reply r = true ->
+  forall m', sess_find (sess_at c (t_pre t) m) (r_yi r) = Some m' -> m' = m_chaddr m.
+Proof. exact never_tracked_other. Qed.
+Print Assumptions C11_clause_never_tracked_for_other_mac.
+
+(* The pool scan of allocIPOffer (cursor scan, wrap-around scan).  Exhaustion yields no offer rather than a
+   duplicate: the allocation fails only when the requested address was refused and NO address of the pool
+   [first, broadcast) is available; an offer of the scan is an available pool address, taken from the cursor
+   on or — when nothing from the cursor to the end is available — from the first pool address on; the
+   DISCOVER of an exhausted pool is answered with silence and leaves no lease for that client id. *)
+Theorem C11_pool_exhaustion : forall c ch s l req s2,
+  allocIPOffer c ch s l req = (None, s2) ->
+  phase1 c ch s l req = None /\
+  forall x, n_first c (l_net2 l) <= x -> x < n_bcast c (l_net2 l) -> avail ch s x = false.
+Proof. exact alloc_exhausted. Qed.
+Print Assumptions C11_pool_exhaustion.
+
+Theorem C11_pool_wraparound : forall c ch s l req x s2,
+  allocIPOffer c ch s l req = (Some x, s2) -> phase1 c ch s l req = None ->
+  avail ch s x = true /\ x < n_bcast c (l_net2 l) /\
+  (get_next s (l_net2 l) <= x \/
+   (n_first c (l_net2 l) <= x /\ forall y, get_next s (l_net2 l) <= y -> y < n_bcast c (l_net2 l) -> avail ch s y = false)).
+Proof. exact alloc_offer_available. Qed.
+Print Assumptions C11_pool_wraparound.
+
+Theorem C11_exhausted_discover_silent : forall c ch now s0 m s',
+  handleDiscover c ch now s0 m = (s', None) -> tget (getcid m) (tbl s') = None.
+Proof. exact discover_exhausted_silent. Qed.
+Print Assumptions C11_exhausted_discover_silent.
